@@ -68,6 +68,36 @@ func H_C11_budget() {
 	vAssert(sameErr(e1, e2) && dumpOf(r1) == dumpOf(r2), what+": Parse with MaxExpressions is the same parse")
 }
 
+// H_C11_full: every budget from 0 to N+2 for short inputs, among them inputs
+// that record an error in mid-parse (invalid UTF-8, a malformed number, an
+// index on the left) — the budget error must not be lost behind it.
+var fullC11 = []string{"a==1", "a == \"\xff\"", "a == 1x", "a[1] == 2", "(a==1)", "a in \"/x\"", "not a", "a == \"\\q\""}
+
+func H_C11_full() {
+	ci := vSeed() % len(fullC11)
+	if vTier() > 0 {
+		ci = vChoose(len(fullC11))
+	}
+	in := []byte(fullC11[ci])
+	p0 := newParser("", in)
+	r0, e0 := p0.parse(g)
+	N := p0.ExprCnt
+	n := vUint64()
+	vAssume(n <= N+2)
+	p1 := newParser("", in, MaxExpressions(n))
+	r1, e1 := p1.parse(g)
+	s1 := p1.ExprCnt
+	what := fullC11[ci]
+	vAssert(n == 0 || s1 == 0 || s1-1 <= n, what+": a limited parse never executes more than n+1 steps")
+	if n == 0 || n >= N {
+		vAssert(sameErr(e0, e1) && dumpOf(r0) == dumpOf(r1), what+": a budget of 0 or >= N gives exactly the unlimited result")
+		vCover("at-or-above-threshold")
+	} else {
+		vAssert(isBudgetErr(e1) && r1 == nil, what+": every budget below N fails with the max-expressions error")
+		vCover("below-threshold")
+	}
+}
+
 // H_C11_nesting: adversarial nesting is cut off within the budget.
 func H_C11_nesting() {
 	depth := 6 + vChoose(3)
